@@ -790,6 +790,21 @@ func (v *View) checkC06(res *Result) {
 					r.b = s.CallVT
 					break
 				}
+				// (a stop call ISSUED before this Start - on another goroutine, at the same moment -
+				// and returning after it: unless it demonstrably took effect before the Start was
+				// called, it may have stopped this very run; the instance is not counted as running)
+				if s.Inst == a.Inst && s.IsStop() && s.Call < a.Call && (s.Ret < 0 || s.Ret > a.Ret) {
+					before := false
+					for j := s.Call + 1; j < a.Call; j++ {
+						if e := v.Ev[j]; e.Kind == "transition" && e.Inst == a.Inst && e.G == s.G && e.To == "STOPPED" {
+							before = true
+						}
+					}
+					if !before {
+						r.b = a.RetVT
+						break
+					}
+				}
 			}
 			runs[a.Inst] = append(runs[a.Inst], r)
 		}
